@@ -18,7 +18,9 @@ import (
 // C13 - queries are pure and deterministic: no input is mutated, repeats agree.
 
 type c13Op struct {
-	Op    string `json:"op"`               // exec reexec subslice rebuild unmarshal
+	Op    string `json:"op"`               // exec reexec subslice rebuild unmarshal scribble typed
+	Doc   int    `json:"doc,omitempty"`    // exec: which document (0: Events, 1: Events2); held node-sets of the other document count as "none"
+	Mode  int    `json:"mode,omitempty"`   // scribble: how the caller edits its own slice; typed: which target type
 	Expr  int    `json:"expr,omitempty"`   // index into Exprs
 	Node  string `json:"node,omitempty"`   // context node ref
 	V     int    `json:"v,omitempty"`      // held node-set bound to $v (-1: none)
@@ -35,6 +37,8 @@ type c13Op struct {
 
 type c13Case struct {
 	Events []xmodel.Event `json:"events"`
+	// a second document (same shape and other values, or unrelated); nil: none
+	Events2 []xmodel.Event `json:"events2,omitempty"`
 	Exprs  []string       `json:"exprs"`
 	Ops    []c13Op        `json:"ops"`
 }
@@ -44,6 +48,42 @@ var c13Hist = reg("C13", "c13-history", checkC13)
 type heldSet struct {
 	ns   xsel.NodeSet   // the caller's slice
 	full []store.Cursor // snapshot of ns[:cap(ns)] when it was taken
+	doc  int            // the document its nodes belong to
+}
+
+// Target types of the "typed" operation.  Each closure declares its own type
+// named rec: the types are distinct, their names (reflect.Type.String()) and
+// field names are not.  What Unmarshal stores depends on the type's own tags
+// only, whatever was unmarshaled before.
+var c13Targets = []func() any{
+	func() any {
+		type rec struct {
+			V string `xsel:"name()"`
+			N string `xsel:"count(*)"`
+		}
+		return &rec{}
+	},
+	func() any {
+		type rec struct {
+			V string `xsel:"string(.)"`
+			N string `xsel:"count(@*)"`
+		}
+		return &rec{}
+	},
+	func() any {
+		type rec struct {
+			V string `xsel:"local-name(..)"`
+			N string `xsel:"count(ancestor::*)"`
+		}
+		return &rec{}
+	},
+	func() any {
+		type rec struct {
+			V string `xsel:"*[1]"`
+			N string `xsel:"count(following::*)"`
+		}
+		return &rec{}
+	},
 }
 
 func treeDigest(root store.Cursor) string {
@@ -85,6 +125,7 @@ func snapshotResult(r xsel.Result) string {
 }
 
 type execRecord struct {
+	doc    int
 	expr   int
 	node   string
 	alt    bool
@@ -109,7 +150,20 @@ func checkC13(c *c13Case) error {
 		}
 		exprs[i] = &g
 	}
+	docs := []*prepared{p}
+	if c.Events2 != nil {
+		p2, err := prepareDoc(c.Events2)
+		if err != nil {
+			st.Discard("document-not-mirrored")
+			return nil
+		}
+		docs = append(docs, p2)
+	}
 	digest := treeDigest(p.root)
+	digest2 := ""
+	if len(docs) > 1 {
+		digest2 = treeDigest(docs[1].root)
+	}
 	var held []heldSet
 	// caller-owned binding maps, installed into every query
 	nsMap := map[string]string{"x": "urn:x", "y": "urn:y"}
@@ -122,6 +176,9 @@ func checkC13(c *c13Case) error {
 		if d := treeDigest(p.root); d != digest {
 			return fmt.Errorf("step %d (%s): the document tree changed", step, what)
 		}
+		if len(docs) > 1 && treeDigest(docs[1].root) != digest2 {
+			return fmt.Errorf("step %d (%s): the second document's tree changed", step, what)
+		}
 		for i, h := range held {
 			full := h.ns[:cap(h.ns)]
 			if len(full) != len(h.full) {
@@ -133,7 +190,7 @@ func checkC13(c *c13Case) error {
 					if k >= len(h.ns) {
 						where = "beyond its length, inside its capacity"
 					}
-					return fmt.Errorf("step %d (%s): caller-held node-set %d was modified at index %d (%s): now %v, was %v", step, what, i, k, where, refsOfCursors(full, p.loc), refsOfCursors(h.full, p.loc))
+					return fmt.Errorf("step %d (%s): caller-held node-set %d was modified at index %d (%s): now %v, was %v", step, what, i, k, where, refsOfCursors(full, docs[h.doc].loc), refsOfCursors(h.full, docs[h.doc].loc))
 				}
 			}
 		}
@@ -154,12 +211,13 @@ func checkC13(c *c13Case) error {
 			callVars[xsel.XmlName{Local: "n"}] = xsel.Number(3)
 			callVars[xsel.XmlName{Local: "s"}] = xsel.String("2")
 		}
-		if op.V >= 0 && op.V < len(held) {
+		d := docs[op.Doc%len(docs)]
+		if op.V >= 0 && op.V < len(held) && held[op.V].doc == op.Doc%len(docs) {
 			callVars[xsel.XmlName{Local: "v"}] = held[op.V].ns
 		} else {
 			callVars[xsel.XmlName{Local: "v"}] = xsel.NodeSet{}
 		}
-		if op.W >= 0 && op.W < len(held) {
+		if op.W >= 0 && op.W < len(held) && held[op.W].doc == op.Doc%len(docs) {
 			callVars[xsel.XmlName{Local: "w"}] = held[op.W].ns
 		} else {
 			callVars[xsel.XmlName{Local: "w"}] = xsel.NodeSet{}
@@ -173,9 +231,9 @@ func checkC13(c *c13Case) error {
 			cs.Variables = callVars
 			cs.FunctionLibrary = funcs
 		}
-		n := p.doc.Resolve(op.Node)
+		n := d.doc.Resolve(op.Node)
 		if n == nil {
-			n = p.doc.Root
+			n = d.doc.Root
 		}
 		settings := []xsel.ContextApply{apply}
 		if op.Plain {
@@ -195,7 +253,7 @@ func checkC13(c *c13Case) error {
 		if op.BindK {
 			settings = append(settings, xsel.WithNS("k", "urn:x"))
 		}
-		r, err := safeExec(p.loc.ToCur[n], g, settings...)
+		r, err := safeExec(d.loc.ToCur[n], g, settings...)
 		if op.BindK {
 			// WithNS wrote into the caller's map: take it out again (the caller owns the map)
 			delete(nsMap, "k")
@@ -209,7 +267,7 @@ func checkC13(c *c13Case) error {
 		}
 		return snapshotResult(r), false, r
 	}
-	reexecs, aliased := 0, false
+	reexecs, aliased, scribbles, typeds := 0, false, 0, 0
 	for step, op := range c.Ops {
 		what := op.Op
 		switch op.Op {
@@ -225,13 +283,20 @@ func checkC13(c *c13Case) error {
 			if op.W >= len(held) {
 				op.W = -1
 			}
-			what = fmt.Sprintf("exec %q from %s with $v=held[%d] $w=held[%d]", c.Exprs[op.Expr], op.Node, op.V, op.W)
+			op.Doc %= len(docs)
+			if op.V >= 0 && held[op.V].doc != op.Doc {
+				op.V = -1
+			}
+			if op.W >= 0 && held[op.W].doc != op.Doc {
+				op.W = -1
+			}
+			what = fmt.Sprintf("exec %q on document %d from %s with $v=held[%d] $w=held[%d]", c.Exprs[op.Expr], op.Doc, op.Node, op.V, op.W)
 			snap, isErr, r := doExec(op, exprs[op.Expr])
 			if strings.HasPrefix(snap, "the caller's") {
 				return fmt.Errorf("step %d (%s): %s", step, what, snap)
 			}
 			st.Eval(1)
-			records[step] = execRecord{op.Expr, op.Node, op.Alt, op.BindK, op.Plain, op.V, op.W, snap, isErr}
+			records[step] = execRecord{op.Doc, op.Expr, op.Node, op.Alt, op.BindK, op.Plain, op.V, op.W, snap, isErr}
 			// a prefix is bound only for the query it was bound for
 			if strings.Contains(c.Exprs[op.Expr], "k:") && !op.BindK && !isErr && op.Node == "/" {
 				return fmt.Errorf("step %d (%s): the prefix k is not bound for this query (an earlier query bound it) but the query succeeded: %s", step, what, snap)
@@ -248,7 +313,7 @@ func checkC13(c *c13Case) error {
 				}
 			}
 			if ns, ok := r.(xsel.NodeSet); ok && op.Hold {
-				held = append(held, heldSet{ns, append([]store.Cursor{}, ns[:cap(ns)]...)})
+				held = append(held, heldSet{ns, append([]store.Cursor{}, ns[:cap(ns)]...), op.Doc})
 			}
 			if (op.V >= 0 && op.V < len(held) || op.W >= 0 && op.W < len(held)) && strings.Contains(c.Exprs[op.Expr], "$") {
 				aliased = true
@@ -258,8 +323,8 @@ func checkC13(c *c13Case) error {
 			if !ok {
 				continue
 			}
-			what = fmt.Sprintf("re-exec of step %d: %q from %s", op.Idx, c.Exprs[rec.expr], rec.node)
-			snap, _, _ := doExec(c13Op{Expr: rec.expr, Node: rec.node, Alt: rec.alt, BindK: rec.k, Plain: rec.plain, V: rec.v, W: rec.w}, exprs[rec.expr])
+			what = fmt.Sprintf("re-exec of step %d: %q on document %d from %s", op.Idx, c.Exprs[rec.expr], rec.doc, rec.node)
+			snap, _, _ := doExec(c13Op{Doc: rec.doc, Expr: rec.expr, Node: rec.node, Alt: rec.alt, BindK: rec.k, Plain: rec.plain, V: rec.v, W: rec.w}, exprs[rec.expr])
 			st.Eval(1)
 			reexecs++
 			if snap != rec.result {
@@ -284,7 +349,7 @@ func checkC13(c *c13Case) error {
 				k = cap(src)
 			}
 			sub := src[i:j:k]
-			held = append(held, heldSet{sub, append([]store.Cursor{}, sub[:cap(sub)]...)})
+			held = append(held, heldSet{sub, append([]store.Cursor{}, sub[:cap(sub)]...), held[op.Idx].doc})
 			what = fmt.Sprintf("held[%d][%d:%d:%d]", op.Idx, i, j, k)
 		case "rebuild":
 			if op.Expr >= len(exprs) {
@@ -296,6 +361,86 @@ func checkC13(c *c13Case) error {
 			}
 			exprs[op.Expr] = &g
 			what = fmt.Sprintf("rebuild %q", c.Exprs[op.Expr])
+		case "scribble":
+			// the caller edits a slice it owns (a result it kept): later queries
+			// must not notice
+			if op.Idx < 0 || op.Idx >= len(held) || len(held[op.Idx].ns) == 0 {
+				continue
+			}
+			own := held[op.Idx].ns
+			switch op.Mode % 3 {
+			case 0:
+				for i, j := 0, len(own)-1; i < j; i, j = i+1, j-1 {
+					own[i], own[j] = own[j], own[i]
+				}
+				what = fmt.Sprintf("caller reverses held[%d] in place", op.Idx)
+			case 1:
+				// in-place filter: keep every second node, the rest of the length repeats the last one kept
+				k := 0
+				for i := 0; i < len(own); i += 2 {
+					own[k] = own[i]
+					k++
+				}
+				for i := k; i < len(own); i++ {
+					own[i] = own[k-1]
+				}
+				what = fmt.Sprintf("caller filters held[%d] in place", op.Idx)
+			default:
+				for i := range own {
+					own[i] = own[0]
+				}
+				what = fmt.Sprintf("caller overwrites held[%d] with its first node", op.Idx)
+			}
+			scribbles++
+			// the edit is the caller's own: take new snapshots of every held slice
+			// (sub-slices share storage) and forget the executions whose bindings
+			// included a held slice
+			for i := range held {
+				held[i].full = append([]store.Cursor{}, held[i].ns[:cap(held[i].ns)]...)
+			}
+			for k, rec := range records {
+				if rec.v >= 0 || rec.w >= 0 {
+					delete(records, k)
+				}
+			}
+		case "typed":
+			d := docs[op.Doc%len(docs)]
+			n := d.doc.Resolve(op.Node)
+			if n == nil || n.Kind != xmodel.Elem {
+				continue
+			}
+			cur := d.loc.ToCur[n]
+			target := c13Targets[op.Mode%len(c13Targets)]()
+			what = fmt.Sprintf("Unmarshal(%s of document %d, %T #%d)", op.Node, op.Doc%len(docs), target, op.Mode%len(c13Targets))
+			var uerr error
+			func() {
+				defer func() {
+					if r := recover(); r != nil {
+						uerr = fmt.Errorf("panic: %v", r)
+					}
+				}()
+				uerr = xsel.Unmarshal(xsel.NodeSet{cur}, target)
+			}()
+			if uerr != nil {
+				return fmt.Errorf("step %d (%s): %v", step, what, uerr)
+			}
+			st.Eval(1)
+			typeds++
+			tv := reflect.ValueOf(target).Elem()
+			for i := 0; i < tv.NumField(); i++ {
+				tag := tv.Type().Field(i).Tag.Get("xsel")
+				g, err := safeBuild(tag)
+				if err != nil {
+					return fmt.Errorf("harness: tag %q: %v", tag, err)
+				}
+				r, err := safeExec(cur, &g)
+				if err != nil {
+					return fmt.Errorf("harness: tag %q: %v", tag, err)
+				}
+				if got := tv.Field(i).String(); got != r.String() {
+					return fmt.Errorf("step %d (%s): field %s `xsel:%q` holds %q, the tag's expression evaluates to %q from that node", step, what, tv.Type().Field(i).Name, tag, got, r.String())
+				}
+			}
 		case "unmarshal":
 			if op.Idx < 0 || op.Idx >= len(held) {
 				continue
@@ -317,11 +462,20 @@ func checkC13(c *c13Case) error {
 		if err != nil {
 			return fmt.Errorf("BuildExpr(%q) failed on a repeat: %v", c.Exprs[rec.expr], err)
 		}
-		snap, _, _ := doExec(c13Op{Expr: rec.expr, Node: rec.node, Alt: rec.alt, BindK: rec.k, Plain: rec.plain, V: rec.v, W: rec.w}, &g)
+		snap, _, _ := doExec(c13Op{Doc: rec.doc, Expr: rec.expr, Node: rec.node, Alt: rec.alt, BindK: rec.k, Plain: rec.plain, V: rec.v, W: rec.w}, &g)
 		st.Eval(1)
 		if snap != rec.result {
-			return fmt.Errorf("a freshly built %q from %s gave a different result than the reused expression at step %d", c.Exprs[rec.expr], rec.node, step)
+			return fmt.Errorf("a freshly built %q on document %d from %s gave a different result than the reused expression at step %d", c.Exprs[rec.expr], rec.doc, rec.node, step)
 		}
+	}
+	if scribbles > 0 {
+		st.Class("caller-edited-own-result")
+	}
+	if typeds > 1 {
+		st.Class("unmarshal-into-several-same-named-types")
+	}
+	if len(docs) > 1 {
+		st.Class("two-documents")
 	}
 	if reexecs > 0 && aliased {
 		key := fmt.Sprint(c.Exprs, c.Ops, len(c.Events))
@@ -344,9 +498,27 @@ func TestC13(t *testing.T) {
 		elems, attrs, _ := docNames(doc)
 		g := &xast.G{T: t, Env: xast.GenEnv{ElemNames: queryable(elems), AttrNames: queryable(attrs), Prefixes: []string{"x", "y"}, NumVars: []string{"n"}, StrVars: []string{"s"}, NodeVars: []string{"v", "w"}, NoLang: true}}
 		c := &c13Case{Events: ev}
+		doc2 := doc
+		switch rapid.IntRange(0, 3).Draw(t, "secondDoc") {
+		case 0:
+			// the same shape with other values: every position of the first document exists in the second
+			for _, e := range ev {
+				if (e.K == "T" || e.K == "A") && e.Value != "" && rapid.Bool().Draw(t, "otherValue") {
+					e.Value = []string{"1", "2", "3", "10", "9", "2.5", "abc"}[rapid.IntRange(0, 6).Draw(t, "value2")]
+				}
+				c.Events2 = append(c.Events2, e)
+			}
+			doc2 = xmodel.Build(c.Events2)
+		case 1:
+			c.Events2 = xmodel.Gen(t, xmodel.GenCfg{MaxDepth: 3, MaxKids: 4, Names: []string{"a", "b", "c"}, Numeric: true})
+			doc2 = xmodel.Build(c.Events2)
+		}
 		fixed := []string{"$v | //a", "//a | $v", "$v | $v", "$v | $w", "$v | /nope", "($v | $w)[1]", "$v/..", "$v[1]", "$v[last()]", "count($v | //b)", "//node()", "//*/ancestor::*", "//@*/..", "$w//text()", "$v/ancestor::*/@*",
 			"$v/self::a", "$v/self::*", "$w/self::b", "count($v/self::b)", "$v/self::node()[1]", "$x:n", "$x:n + count(//x:a)", "//x:*", "$y:n",
-			"//a[//b[. = $n]]", "//*[count(//a[. >= $n]) > 0]", "//a[/descendant::b = $s]", "//*[. = //a[. = $n]]", "//k:*", "count(//k:a)", "//*[k:b]"}
+			"//a[//b[. = $n]]", "//*[count(//a[. >= $n]) > 0]", "//a[/descendant::b = $s]", "//*[. = //a[. = $n]]", "//k:*", "count(//k:a)", "//*[k:b]",
+			// plain absolute paths inside predicates; whole-document selections handed to the caller as they are
+			"//a[. = //b]", "//*[. = /*/*]", "//a[/*/b]", "//b[not(. = //a)]", "//*[count(/*/*) > 1]", "/descendant-or-self::node()", "//.", "//*", "/", ".", "*", "@*", "//text()", "//a", "//b", "//c",
+			"descendant-or-self::node()", "/*", "//*[1]", "..", "self::node()", "ancestor-or-self::node()", "following::node()", "preceding::node()"}
 		for i, n := 0, rapid.IntRange(3, 6).Draw(t, "nExprs"); i < n; i++ {
 			if rapid.Bool().Draw(t, "fixedExpr") {
 				c.Exprs = append(c.Exprs, fixed[rapid.IntRange(0, len(fixed)-1).Draw(t, "fixed")])
@@ -357,10 +529,24 @@ func TestC13(t *testing.T) {
 		nHeld := 0
 		var execs []int
 		for i, n := 0, rapid.IntRange(4, 25).Draw(t, "nOps"); i < n; i++ {
-			switch k := rapid.IntRange(0, 9).Draw(t, "op"); {
-			case k <= 4 || nHeld == 0:
+			switch k := rapid.IntRange(0, 12).Draw(t, "op"); {
+			case k == 10 && nHeld > 0:
+				c.Ops = append(c.Ops, c13Op{Op: "scribble", Idx: rapid.IntRange(0, nHeld-1).Draw(t, "which"), Mode: rapid.IntRange(0, 2).Draw(t, "scribbleMode")})
+			case k == 11 || k == 12 && nHeld == 0:
+				op := c13Op{Op: "typed", Mode: rapid.IntRange(0, len(c13Targets)-1).Draw(t, "target")}
+				d := doc
+				if c.Events2 != nil && rapid.Bool().Draw(t, "onSecond") {
+					op.Doc, d = 1, doc2
+				}
+				op.Node = d.All[rapid.IntRange(0, len(d.All)-1).Draw(t, "node")].Ref()
+				c.Ops = append(c.Ops, op)
+			case k <= 4 || nHeld == 0 || k == 12:
 				op := c13Op{Op: "exec", Expr: rapid.IntRange(0, len(c.Exprs)-1).Draw(t, "expr"), V: -1, W: -1, Hold: rapid.Bool().Draw(t, "hold"), Alt: rapid.IntRange(0, 2).Draw(t, "altBindings") == 0, BindK: rapid.IntRange(0, 2).Draw(t, "bindK") == 0, Plain: rapid.Bool().Draw(t, "plainOptions")}
-				op.Node = doc.All[rapid.IntRange(0, len(doc.All)-1).Draw(t, "node")].Ref()
+				d := doc
+				if c.Events2 != nil && rapid.Bool().Draw(t, "onSecond") {
+					op.Doc, d = 1, doc2
+				}
+				op.Node = d.All[rapid.IntRange(0, len(d.All)-1).Draw(t, "node")].Ref()
 				if rapid.Bool().Draw(t, "fromRoot") {
 					op.Node = "/"
 				}
